@@ -628,6 +628,11 @@ def access_kind(f, n):
             except ValueError:
                 return 'read'
             ptypes = _param_types(fid)
+            if k == 'CXXOperatorCallExpr' and len(ptypes) == len(args) - 1:
+                # member operator: the first operand is the object itself
+                if ai == 0:
+                    return 'read' if cal.get('const') else 'rmw'
+                ai -= 1
             if ai < len(ptypes) and ptypes[ai].endswith('&') and not ptypes[ai].startswith('const '):
                 return 'rmw'
             return 'read'
